@@ -702,33 +702,36 @@ pub fn gen_reader(r: &mut Rng, _i: u64) -> String {
     let mut n_markers = 0u64;
     for _ in 0..n_ops {
         let choice = r.below(20);
-        if q_read < nq && choice < 9 {
+        // questions first (documented order); now and then deliberately not
+        if q_read < nq && !r.chance(1, 25) {
             match r.below(6) {
                 0 => {
                     ops.push("sq".into());
                     q_read = nq;
+                    continue;
                 }
                 1 => ops.push("qr".into()),
                 2 if nq == 1 => ops.push("tq".into()),
                 3 if nq == 1 => ops.push("tqr".into()),
                 _ => ops.push("q".into()),
             }
-            if q_read < nq {
-                q_read += 1;
-            }
+            q_read += 1;
             continue;
         }
+        // no records left: seek back, query counts / random access, or (rarely) read past the end
+        let exhausted = k >= recs.len();
+        let choice = if exhausted && choice <= 11 && !r.chance(1, 12) { 12 + r.below(8) } else { choice };
         match choice {
             0..=11 => {
                 // a record pair
                 ops.push(r.pick(&G1).to_string());
                 n_markers += 1;
                 let t = if k < recs.len() { recs[k].rtype } else { *r.pick(&ALL_TYPES) };
-                let g2 = match r.below(10) {
+                let g2 = match r.below(12) {
                     0..=2 => "sk".to_string(),
                     3..=4 => "db".to_string(),
                     5 if t == T_OPT => "op".to_string(),
-                    9 => format!("dt:{}", type_name(*r.pick(&ALL_TYPES))),
+                    11 => format!("dt:{}", type_name(*r.pick(&ALL_TYPES))),
                     _ => {
                         if ALL_TYPES.contains(&t) {
                             format!("dt:{}", type_name(t))
@@ -755,18 +758,13 @@ pub fn gen_reader(r: &mut Rng, _i: u64) -> String {
             }
             15 => ops.push("cq".into()),
             16 => ops.push(if r.chance(1, 2) { "cr".into() } else { format!("cs:{}", r.below(3)) }),
-            17 => ops.push(format!("dba:{}", r.below(n_markers + 2))),
+            17 => ops.push(format!("dba:{}", r.below(n_markers + 1))),
             18 => {
-                let i = r.below(n_markers + 2);
-                let t = if (i as usize) < recs.len() && r.chance(3, 4) {
-                    recs[i as usize].rtype
-                } else {
-                    *r.pick(&ALL_TYPES)
-                };
-                let t = if ALL_TYPES.contains(&t) { t } else { 1 };
+                let i = r.below(n_markers + 1);
+                let t = *r.pick(&ALL_TYPES);
                 ops.push(format!("dta:{}:{}", i, type_name(t)));
             }
-            _ => ops.push(format!("nra:{}", r.below(n_markers + 2))),
+            _ => ops.push(format!("nra:{}", r.below(n_markers + 1))),
         }
     }
     format!("reader {} {}", to_hex(&buf), ops.join(" "))
